@@ -455,3 +455,9 @@ pub const fn get_pawn_quiets(square: Square, color: Color, blockers: BitBoard) -
     }
     moves
 }
+
+/// Verification hook: the generated slider attack table.
+#[cfg(cozy_chess_verif)]
+pub fn verif_sliding_moves_table() -> &'static [u64; SLIDING_MOVE_TABLE_SIZE] {
+    SLIDING_MOVES
+}
